@@ -196,7 +196,7 @@ def plant(rng, w, d):
     if s[0] == "key":
         def f(x):
             ms = list(x[1])
-            ms.insert(rng.randrange(len(ms) + 1), ("zz_unknown_zz", ("i", "1")))
+            ms.insert(rng.randrange(len(ms) + 1), ("zz_unknown_zz", rng.choice([("i", "1"), ("s", '"v"'), ("o", [("x", ("i", "5"))]), ("a", [("i", "1")]), ("n", "null")])))
             return ("o", ms)
         return J.replace_at(d, s[1], f), '"zz_unknown_zz"', "E206"
     tok = '"zz_wrong_zz"' if s[2] != "S" else "424242"
@@ -213,6 +213,11 @@ def judge_validation_positions(ctx, quick):
         import check_c01
         if w.kind not in "OA":
             continue
+        if rng.random() < 0.5:
+            # additionalProperties: false written out: an unknown key is refused all the same, AT THE KEY
+            for x in J.all_nodes(w):
+                if x.kind == "O" and not x.any and not any(r_[0] == "additionalProperties" for r_ in x.rules):
+                    x.rules.append(("additionalProperties", "false"))
         d = J.conforming(rng, w, False)
         p = plant(rng, w, d)
         if p is None:
